@@ -4,6 +4,7 @@ Property theorems and non-vacuity examples only.
 -/
 import StyluaModel.Lemmas.Paren
 import StyluaModel.Lemmas.StrLit
+import StyluaModel.Lemmas.Parser
 
 namespace StyluaModel.C02
 open StyluaModel StyluaModel.ParenRule StyluaModel.Prec StyluaModel.ParenLemmas Expr
@@ -16,6 +17,20 @@ theorem C02_expr (o : Oracle) (e : Expr) (hf : faithful e = true) :
     (faithful (fmtH repaired o .std e) = true ∧ sem (fmtH repaired o .std e) = sem e) :=
   ⟨⟨(fmtS_good e .std .top rfl hf rfl).1, (fmtS_good e .std .top rfl hf rfl).2.2.1⟩,
    ⟨((hang_good e).1 o .std .top rfl hf rfl).1, ((hang_good e).1 o .std .top rfl hf rfl).2.2.1⟩⟩
+
+/-- **meaning through the parser**: what the parser reads from the printed output means what it
+reads from the printed input (both layout paths, every oracle, enough fuel) -/
+theorem C02_expr_parsed (o : Oracle) (e : Expr) (hf : faithful e = true) :
+    ∃ n, ∀ f, n ≤ f →
+      (Parser.parse f (Parser.print (fmtS repaired .std e))).map sem = (Parser.parse f (Parser.print e)).map sem ∧
+      (Parser.parse f (Parser.print (fmtH repaired o .std e))).map sem = (Parser.parse f (Parser.print e)).map sem := by
+  obtain ⟨⟨hs1, hs2⟩, ⟨hh1, hh2⟩⟩ := C02_expr o e hf
+  obtain ⟨n0, h0⟩ := ParserLemmas.parse_print e hf
+  obtain ⟨n1, h1⟩ := ParserLemmas.parse_print _ hs1
+  obtain ⟨n2, h2⟩ := ParserLemmas.parse_print _ hh1
+  refine ⟨max n0 (max n1 n2), fun f hle => ?_⟩
+  rw [h0 f (by omega), h1 f (by omega), h2 f (by omega)]
+  simp [hs2, hh2]
 
 /-- the same at operand positions (what `format_expression_internal` is called with) -/
 theorem C02_expr_at (o : Oracle) (ctx : Ctx) (p : Pos) (e : Expr) (hd : dropOK ctx p = true)
